@@ -1,10 +1,217 @@
 /-
-  TwProofs.C03 — property theorems (see DESIGN.md, section 6).
+  TwProofs.C03 — `@each` / `@for`: passes in order, loop metadata, break / continue, `@else`.
+
+  The loops of the model's evaluator are described without fuel by the inductive relations
+  `EachPasses` and `ForPasses` (TwProofs/Lemmas/Loops.lean): the sequence of passes, each with
+  the element bound and `loop` set to the metadata of its position, ending at the first pass
+  whose body reports a break.  The theorems say the evaluator emits exactly the text of those
+  passes, what `@break` / `@continue` (also conditional, also nested in `@if`) do to a pass, and
+  that the loop statement hands back the environment it was given.
 -/
 import TwModel
 import TwSpec
+import TwProofs.Lemmas.Loops
 
 namespace Tw.C03
 open Tw
+
+/-! ### loop metadata -/
+
+/-- `loop.index`, `loop.iter`, `loop.first`, `loop.last` of the element at position `i` of `n` -/
+theorem loop_metadata (i n : Nat) :
+    loopObj i n = .obj [(b "first", .bool (i == 0)), (b "index", .int (Int64.ofNat i)),
+      (b "iter", .int (Int64.ofNat (i + 1))), (b "last", .bool (i + 1 == n))] := rfl
+
+theorem loop_index (i n line : Nat) :
+    (match loopObj i n with | .obj kvs => objIndex kvs (b "index") line | _ => .oof) = .ok (.int (Int64.ofNat i)) := by
+  simp (config := { decide := true }) [loopObj, objIndex, mapGet, b, utf8Bytes]
+
+theorem loop_iter (i n line : Nat) :
+    (match loopObj i n with | .obj kvs => objIndex kvs (b "iter") line | _ => .oof) = .ok (.int (Int64.ofNat (i + 1))) := by
+  simp (config := { decide := true }) [loopObj, objIndex, mapGet, b, utf8Bytes]
+
+theorem loop_first (i n line : Nat) :
+    (match loopObj i n with | .obj kvs => objIndex kvs (b "first") line | _ => .oof) = .ok (.bool (i == 0)) := by
+  simp (config := { decide := true }) [loopObj, objIndex, mapGet, b, utf8Bytes]
+
+theorem loop_last (i n line : Nat) :
+    (match loopObj i n with | .obj kvs => objIndex kvs (b "last") line | _ => .oof) = .ok (.bool (i + 1 == n)) := by
+  simp (config := { decide := true }) [loopObj, objIndex, mapGet, b, utf8Bytes]
+
+/-! ### `@each` -/
+
+/-- **`@each` renders its passes**: over a non-empty array the statement emits the text of the
+    passes — element `k` bound to the variable, `loop` = metadata of position `k` of `n`, in
+    order, up to and including the first pass that breaks — carries no break / continue flag
+    to the enclosing construct, and returns the environment it was given (so the loop variable,
+    `loop`, and whatever the body assigned vanish; an outer `loop` is visible again) -/
+theorem each_renders_passes (f : Nat) (c : Ctx) (env : Env) (t : Token) (var : Bytes) (arrE : Expr) (body : List Stmt)
+    (alt : Option (List Stmt)) (xs : List Val) (out : Bytes)
+    (harr : evalExpr f c env.push arrE = .ok (.arr xs)) (hne : xs ≠ [])
+    (hp : EachPasses f c t var body xs.length env.push xs 0 out) :
+    evalStmt (f + xs.length + 1 + 1) c env (.eachS t var arrE body alt) = .ok ({ text := out }, env) := by
+  rw [evalStmt_succ]
+  simp only [stmtBody, calleesAt_expr, calleesAt_eachL]
+  rw [show f + xs.length + 1 = f + (xs.length + 1) from rfl, evalExpr_lift harr, Res.bind_ok]
+  have hemp : xs.isEmpty = false := by cases xs with | nil => exact absurd rfl hne | cons _ _ => rfl
+  simp only [hemp, Bool.false_eq_true, if_false]
+  rw [show f + (xs.length + 1) = f + xs.length + 1 from rfl, eachLoop_passes hp, Res.bind_ok]
+  simp
+
+/-- the `@else` body is rendered exactly when the array is empty; its break / continue flags go
+    to the construct around the loop -/
+theorem each_empty_else (f : Nat) (c : Ctx) (env : Env) (t : Token) (var : Bytes) (arrE : Expr) (body ab : List Stmt)
+    (harr : evalExpr f c env.push arrE = .ok (.arr [])) :
+    evalStmt (f + 1) c env (.eachS t var arrE body (some ab)) = (evalBlock f c env.push ab).bind fun r => .ok (r.1, env) := by
+  rw [evalStmt_succ]
+  simp only [stmtBody, calleesAt_expr, calleesAt_block]
+  rw [harr, Res.bind_ok]
+  rfl
+
+theorem each_empty_no_else (f : Nat) (c : Ctx) (env : Env) (t : Token) (var : Bytes) (arrE : Expr) (body : List Stmt)
+    (harr : evalExpr f c env.push arrE = .ok (.arr [])) :
+    evalStmt (f + 1) c env (.eachS t var arrE body none) = .ok ({}, env) := by
+  rw [evalStmt_succ]
+  simp only [stmtBody, calleesAt_expr]
+  rw [harr, Res.bind_ok]
+  rfl
+
+/-- iterating a value that is not an array is an error with the line of the directive -/
+theorem each_non_array (f : Nat) (c : Ctx) (env : Env) (t : Token) (var : Bytes) (arrE : Expr) (body : List Stmt)
+    (alt : Option (List Stmt)) (v : Val) (hl : evalExpr f c env.push arrE = .ok v) (hv : ∀ xs, v ≠ .arr xs) :
+    evalStmt (f + 1) c env (.eachS t var arrE body alt) = .err "ErrEachNotArray" t.errorLine [v.typeName] := by
+  rw [evalStmt_succ]
+  simp only [stmtBody, calleesAt_expr]
+  rw [hl, Res.bind_ok]
+  cases v with
+  | arr xs => exact absurd rfl (hv xs)
+  | _ => rfl
+
+/-! ### `@for` -/
+
+/-- the environment in which the condition is first evaluated: a new scope, then `init` -/
+def ForEntry (f : Nat) (c : Ctx) (env : Env) (init : Option Stmt) (env1 : Env) : Prop :=
+  match init with
+  | none => env1 = env.push
+  | some i => ∃ o, evalStmt f c env.push i = .ok (o, env1)
+
+/-- **`@for` renders its passes**: while the condition is truthy the body is rendered and the post
+    clause applied, in order, up to and including the first pass that breaks; no flag reaches
+    the enclosing construct and the environment handed back is the one given -/
+theorem for_renders_passes (f : Nat) (c : Ctx) (env env1 : Env) (t : Token) (init : Option Stmt) (cnd : Option Expr)
+    (post : Option Stmt) (body : List Stmt) (alt : Option (List Stmt)) (m : Nat) (out : Bytes)
+    (hinit : ForEntry f c env init env1) (hentry : CondIs f c env1 cnd true)
+    (hp : ForPasses f c t init cnd post body env1 m out) :
+    evalStmt (f + m + 1 + 1) c env (.forS t init cnd post body alt) = .ok ({ text := out }, env) := by
+  rw [evalStmt_succ]
+  simp only [stmtBody, calleesAt_expr, calleesAt_forL, calleesAt_stmt]
+  have h1 : (match init with
+      | none => Res.ok env.push
+      | some i => (evalStmt (f + m + 1) c env.push i).bind fun r => Res.ok r.2) = .ok env1 := by
+    cases init with
+    | none => simp only [ForEntry] at hinit; rw [hinit]
+    | some i =>
+      obtain ⟨o, ho⟩ := hinit
+      simp only []
+      rw [show f + m + 1 = f + (m + 1) from rfl, evalStmt_lift ho, Res.bind_ok]
+  have h1' : ∀ {β} (g : Env → Res β), ((match init with
+      | none => Res.ok env.push
+      | some i => (evalStmt (f + m + 1) c env.push i).bind fun r => Res.ok r.2).bind g) = g env1 := by
+    intro β g; rw [h1, Res.bind_ok]
+  cases init with
+  | none =>
+    simp only [] at h1' ⊢
+    rw [Res.bind_ok]
+    simp only [ForEntry] at hinit
+    subst hinit
+    rw [show f + m + 1 = f + (m + 1) from rfl, condTruth_of hentry, Res.bind_ok]
+    simp only [if_true]
+    rw [show f + (m + 1) = f + m + 1 from rfl, forLoop_passes hp, Res.bind_ok]
+    simp
+  | some i =>
+    obtain ⟨o, ho⟩ := hinit
+    simp only []
+    rw [show f + m + 1 = f + (m + 1) from rfl, evalStmt_lift ho, Res.bind_ok, Res.bind_ok]
+    simp only []
+    rw [condTruth_of hentry, Res.bind_ok]
+    simp only [if_true]
+    rw [show f + (m + 1) = f + m + 1 from rfl, forLoop_passes hp, Res.bind_ok]
+    simp
+
+/-- the `@else` body of `@for` is rendered exactly when the condition is false at entry -/
+theorem for_else (f : Nat) (c : Ctx) (env env1 : Env) (t : Token) (init : Option Stmt) (cnd : Option Expr)
+    (post : Option Stmt) (body ab : List Stmt)
+    (hinit : ForEntry f c env init env1) (hentry : CondIs f c env1 cnd false) :
+    evalStmt (f + 1) c env (.forS t init cnd post body (some ab)) = (evalBlock f c env1 ab).bind fun r => .ok (r.1, env) := by
+  rw [evalStmt_succ]
+  simp only [stmtBody, calleesAt_expr, calleesAt_block, calleesAt_stmt]
+  have hc := condTruth_of hentry 0
+  rw [Nat.add_zero] at hc
+  cases init with
+  | none =>
+    simp only [ForEntry] at hinit
+    subst hinit
+    simp only [Res.bind_ok]
+    rw [hc, Res.bind_ok]
+    simp
+  | some i =>
+    obtain ⟨o, ho⟩ := hinit
+    simp only []
+    rw [ho, Res.bind_ok, Res.bind_ok]
+    simp only []
+    rw [hc, Res.bind_ok]
+    simp
+
+/-! ### break and continue -/
+
+theorem break_sets_flag (f : Nat) (c : Ctx) (env : Env) (t : Token) :
+    evalStmt (f + 1) c env (.brk t) = .ok ({ brk := true }, env) := rfl
+
+theorem continue_sets_flag (f : Nat) (c : Ctx) (env : Env) (t : Token) :
+    evalStmt (f + 1) c env (.cont t) = .ok ({ cont := true }, env) := rfl
+
+/-- a block stops after the statement that reports break or continue: what preceded it in the
+    block has been emitted, what follows is not evaluated -/
+theorem block_stops_at_control (f : Nat) (c : Ctx) (env : Env) (s : Stmt) (rest : List Stmt) (r1 : Out × Env)
+    (hs : evalStmt f c env s = .ok r1) (hflag : (r1.1.brk || r1.1.cont) = true) :
+    evalBlock (f + 1) c env (s :: rest) = .ok r1 := by
+  rw [evalBlock_cons, hs, Res.bind_ok, if_pos hflag]
+
+/-- otherwise the texts are concatenated and the flags of the rest are the block's flags -/
+theorem block_continues (f : Nat) (c : Ctx) (env : Env) (s : Stmt) (rest : List Stmt) (r1 : Out × Env)
+    (hs : evalStmt f c env s = .ok r1) (hflag : (r1.1.brk || r1.1.cont) = false) :
+    evalBlock (f + 1) c env (s :: rest) =
+      (evalBlock f c r1.2 rest).bind fun r2 =>
+        .ok ({ text := r1.1.text ++ r2.1.text, brk := r2.1.brk, cont := r2.1.cont }, r2.2) := by
+  rw [evalBlock_cons, hs, Res.bind_ok, if_neg (by rw [hflag]; simp)]
+
+/-- an `@if` hands the flags of the branch it rendered to the construct around it, so a break or
+    continue nested in `@if` blocks reaches the innermost enclosing loop -/
+theorem if_passes_flags_on (f : Nat) (c : Ctx) (env : Env) (t : Token) (cnd : Expr) (cons : List Stmt)
+    (alts : List (Expr × List Stmt)) (alt : Option (List Stmt)) (v : Val) (r : Out × Env)
+    (hc : evalExpr f c env cnd = .ok v) (hv : isTruthy v = true) (hb : evalBlock f c env.push cons = .ok r) :
+    evalStmt (f + 1) c env (.ifS t cnd cons alts alt) = .ok (r.1, env) := by
+  rw [evalStmt_ifS, hc, Res.bind_ok, if_pos hv, hb, Res.bind_ok]
+
+/-- a pass that ends with continue (and not break) is followed by the next pass: this is the
+    `pass` rule of `EachPasses`, which looks at the break flag only -/
+theorem continue_skips_rest_of_pass_only (f : Nat) (c : Ctx) (t : Token) (var : Bytes) (body : List Stmt) (n : Nat)
+    (env env1 : Env) (x : Val) (rest : List Val) (i : Nat) (r : Out × Env) (out : Bytes)
+    (hs : setVar env var x t.errorLine = .ok env1)
+    (hb : evalBlock f c (env1.setLoop (loopObj i n)) body = .ok r) (hcont : r.1.cont = true) (hbrk : r.1.brk = false)
+    (hrest : EachPasses f c t var body n r.2 rest (i + 1) out) :
+    EachPasses f c t var body n env (x :: rest) i (r.1.text ++ out) :=
+  .pass env x rest i env1 r out hs hb hbrk hrest
+
+/-! ### end-to-end instances (kernel evaluation of the whole pipeline) -/
+
+example : (match evaluateStringPure [] (b "@each(v in [7,8,9]){{ loop.index }}{{ loop.iter }}{{ loop.first }}{{ loop.last }}:{{ v }};@end") [] with
+    | .ok out => out == b "0110:7;1200:8;2301:9;" | _ => false) = true := by decide +kernel
+
+example : (match evaluateStringPure [] (b "@each(v in [1,2,3,4])a@if(v == 2)@continue@end@if(v == 3)b@break@end{{ v }}@end!") [] with
+    | .ok out => out == b "a1aab!" | _ => false) = true := by decide +kernel
+
+example : (match evaluateStringPure [] (b "@for(i = 0; i < 3; i++){{ i }}@else none@end|@for(i = 0; i < 0; i++)x@else none@end") [] with
+    | .ok out => out == b "012| none" | _ => false) = true := by decide +kernel
 
 end Tw.C03
